@@ -11,6 +11,7 @@ from ..engines.simmpi import SimViolation
 from ..models import cluster as M
 from . import clcommon as C
 from . import mpiops
+from . import appfam
 
 ID = 'C14'
 RULE = ('Each run draws from one seeded tape: world size 1..8 (thorough 1..12), trajectory lengths, data, metric, '
@@ -30,14 +31,16 @@ ASSUMPTIONS = ['collective semantics follow the mpi4py documentation (no real MP
                'as tie-free (every farthest-point choice and stopping test unambiguous beyond 1e-6 relative)']
 REACH_EXPECTED = ['farthest_point_changed_owner', 'rank_with_single_frame', 'eager_root_ran_ahead',
                   'equal_length_group_on_rank', 'tie_free_equality_checked', 'kmedoids_stage_checked',
-                  'schedule_independence_checked', 'op_randind_empty_local']
+                  'schedule_independence_checked', 'op_randind_empty_local', 'app_end_to_end', 'app_equals_serial']
 
 
 def scenario(ctx):
     t = ctx.tape
     fam = t.draw(10)
-    if fam < 6:
+    if fam < 5:
         pipeline(ctx)
+    elif fam < 6:
+        appfam.app_scenario(ctx)
     else:
         mpiops.ops_scenario(ctx, prop='C14')
 
